@@ -6,6 +6,7 @@ package crypto
 
 import (
 	"bytes"
+	"encoding/hex"
 	"os"
 	"path/filepath"
 	"time"
@@ -285,4 +286,51 @@ func ZZ_C20_Two() {
 		zzverif.Assert(err2 != nil && sig2 == nil, "nothing is released below the first signature")
 	}
 	zzverif.Reach("Two end")
+}
+
+// ZZ_C20_Restart: the signer as the node uses it - LoadOrGenSFilePV on the key
+// and state files (no passphrase) - with one or two process restarts between
+// two signing requests and nothing signed in between.
+func ZZ_C20_Restart() {
+	zzverif.RegisterKey("0000000000000000000000000000000000000000000000000000000000002eef",
+		zzHex("AD688E4DD5622F65C5639CB6F7B2C92C259670A8"), zzHex("038A4A7B6C3B598E42851B0913209A95FDEDF0F8BE6F152B331DAC61A26F9B6997"))
+	dir := zzverif.TempDir()
+	keyF, stF := filepath.Join(dir, "key.json"), filepath.Join(dir, "state.json")
+	pv := LoadOrGenSFilePV(keyF, stF, nil)
+	q1 := zzNondetReq("q1")
+	err1, sig1, _, p1 := zzSign(pv, q1)
+	zzverif.Assert(!p1 && err1 == nil && sig1 != nil, "first request after key generation is signed")
+	restarts := 1 + zzverif.Choose("restarts", 2)
+	for i := 0; i < restarts; i++ {
+		pv = LoadOrGenSFilePV(keyF, stF, nil)
+		zzverif.Assert(pv.LastSignState.Height == q1.h && pv.LastSignState.Round == q1.r && pv.LastSignState.Step == q1.step(),
+			"every restart finds the last-signed record on disk")
+	}
+	q2 := zzNondetReq("q2")
+	err2, sig2, _, p2 := zzSign(pv, q2)
+	zzverif.Assert(!p2, "second request does not panic")
+	cmp := zzCmpHRS(q2.h, q2.r, q2.step(), q1.h, q1.r, q1.step())
+	if cmp < 0 {
+		zzverif.Assert(err2 != nil && sig2 == nil, "after restarts: nothing is released below the last signature")
+	}
+	if cmp == 0 {
+		if err2 == nil {
+			zzverif.Assert(zzverif.SameBytes(sig2, sig1), "after restarts: same height/round/step returns the original signature only")
+			zzverif.Assert(q2.sameUpToTimestamp(q1), "after restarts: only for the same message up to timestamp")
+		} else {
+			zzverif.Assert(!q2.sameUpToTimestamp(q1), "after restarts: the same message is answered with the original signature")
+		}
+	}
+	if cmp > 0 {
+		zzverif.Assert(err2 == nil && sig2 != nil, "after restarts: progress is signed")
+	}
+	zzverif.Reach("Restart end")
+}
+
+func zzHex(s string) []byte {
+	b, err := hex.DecodeString(s)
+	if err != nil {
+		panic(err)
+	}
+	return b
 }
